@@ -48,6 +48,12 @@ def run_case(rs, ctx):
     kind = gen.LIN_KINDS[ctx.index % 3]
     d = int(gen.pick(rs, [1, 1, 2, 3, 5, 8, 16, 33]))  # incl. wide contexts: more features than rows per update
     lam = float(gen.pick(rs, [0.01, 0.5, 1.0, 3.0, 10.0]))
+    tiny = d <= 5 and rs.integers(10) == 0
+    if tiny:
+        # a positive penalty far below machine epsilon, with contexts in correspondingly tiny units (X'X ~ 1e-18): a legal,
+        # perfectly conditioned problem after rescaling
+        lam = 1e-20
+        ctx.count("tiny_penalty_cases")
     scale = bool(rs.integers(4) == 0)
     if ctx.index % 150 == 7:
         scale = bool(rs.integers(2))  # the very long batches: half of them with per-arm standardisation
@@ -92,6 +98,8 @@ def run_case(rs, ctx):
         X = rs.normal(1, 2, (n, d))
         if huge:
             X = X + np.linspace(0, 3, n)[:, None]  # not identically distributed along the batch
+        if tiny:
+            X = X * 1e-9
         X = X.tolist()
         y = rs.normal(0, 3, n).tolist()
         ops.append({"op": "fit" if c == 0 else "partial_fit", "d": dd, "r": y, "X": X})
@@ -117,7 +125,7 @@ def run_case(rs, ctx):
             return
     models = {a: ArmRidge(hist[a][0], hist[a][1], d, lam, scale) for a in arms}
     mq = int(gen.pick(rs, [1, 2, 5, 9]))
-    Q = rs.normal(1, 2, (mq, d))
+    Q = rs.normal(1, 2, (mq, d)) * (1e-9 if tiny else 1.0)
     wit = {"cfg": cfg, "ops": ops, "query": Q.tolist()}
     import copy as _copy
     draws = _copy.deepcopy(m._rng).rand(mq) if eps > 0 else None
